@@ -332,11 +332,27 @@ def build_c18(rng, tier):
         opts = gen_opts(rng, inst)
     n = rng.randint(2, 12)
     big_limits = [None, None, 10 ** 9, 10 ** 15, 1e18]
+    # one history in four: the solves of one object carry different limits,
+    # some of which bind (less time than a solve takes -> the back end stops
+    # on its limit; or less than the time elapsed since construction).  The
+    # solves WITHOUT a reachable limit must still reproduce the first one.
+    vary = (not bf) and rng.random() < 0.25
+    if vary:
+        n = rng.randint(4, 12)
+
+    def a_limit():
+        if not vary or rng.random() < 0.45:
+            return rng.choice(big_limits)
+        if rng.random() < 0.5:
+            return 10 ** rng.uniform(-7, -4)
+        return round(10 ** rng.uniform(-1, 2), rng.choice([0, 1, 3]))
     ops = [['solve', {'timeLimit': rng.choice(big_limits)}]]
     while len(ops) < n:
         x = rng.random()
-        if x < 0.2:
-            ops.append(['solve', {'timeLimit': rng.choice(big_limits)}])
+        if x < (0.4 if vary else 0.2):
+            ops.append(['solve', {'timeLimit': a_limit()}])
+            if vary and rng.random() < 0.8:
+                ops.append([rng.choice(GETTERS)])
         elif x < 0.3:
             ops.append(['idle', {'seconds': 10 ** rng.uniform(-3, 4)}])
         else:
@@ -380,7 +396,10 @@ def build_c18(rng, tier):
             'backend': {'policy': 'uniform',
                         'choice_seed': rng.randrange(2 ** 31)}}]
         ops.insert(rng.randint(1, len(ops)), intruder)
-    return lp_base(rng, inst, opts, ops=ops, policy='uniform')
+    sc = lp_base(rng, inst, opts, ops=ops, policy='uniform')
+    if vary:
+        sc['backend']['coherent_tl'] = True
+    return sc
 
 
 # ---------------------------------------------------------------------------
